@@ -67,11 +67,17 @@ def run(ctx: Ctx):
            f"a mask is given", rel, sm.lineno, sample=srcs)
     # nothing after the softmax re-introduces raw scores: the returned value derives from the softmax weights and value
     ret = [st for st, _ in rd.return_envs][-1]
-    der = rd.derives(ret.value, stop=lambda d: isinstance(d.value, ast.Call) and d.value is sm)
-    names = {d.name for d in der.defs}
+    # (the softmax may be a named temporary or written in place in the returned expression: what lies under it is the masked
+    # score by the previous obligations; what lies beside it must not reach back to the scores)
+    in_sm = {id(x) for x in ast.walk(sm)}
+    inline_sm = any(x is sm for x in ast.walk(ret.value))
+    outside = [x for x in ast.walk(ret.value) if isinstance(x, ast.Name) and isinstance(x.ctx, ast.Load) and id(x) not in in_sm]
+    ders = [rd.derives(x, stop=lambda d: isinstance(d.value, ast.Call) and d.value is sm) for x in outside]
+    names = {d.name for der in ders for d in der.defs}
     a_names = {d.name for d in rd.defs if d.value is sm}
-    ok_ret = bool(a_names & names) and "value" in der.params() and not any(
-        isinstance(d.value, ast.Call) and (u(d.value.func) == "self.score" or d.value in fills) for d in der.defs)
+    params_ = set().union(*[der.params() for der in ders]) if ders else set()
+    ok_ret = (bool(a_names & names) or inline_sm) and "value" in params_ and not any(
+        isinstance(d.value, ast.Call) and (u(d.value.func) == "self.score" or d.value in fills) for der in ders for d in der.defs)
     col.ob("G16", "S1", f"{where}::output-from-weights-and-values-only", ok_ret,
            "the returned value does not derive from (softmax weights, value) alone: unmasked scores reach the output",
            rel, ret.lineno, sample=u(ret.value))
@@ -113,24 +119,60 @@ def run(ctx: Ctx):
     sites = {"softmax(e, .)": (-1, inl_f.expand(sm_dim) if sm_dim is not None else None),
              "sum(.)": (0, retx.args[0] if shape_ok and retx.args else None)}
 
-    def adjusted_for_negative(e, shift):
-        """Does expression e denote self.dim on a tensor whose rank is R + shift? shift 0: plain `self.dim`;
-        shift -1: `self.dim if self.dim >= 0 else self.dim + 1` (or the reversed test)."""
-        if e is None:
-            return False
-        if isinstance(e, ast.Name):
-            ds = list(rd.defs_of(e))
-            if len(ds) == 1 and ds[0].value is not None:
-                e = ds[0].value
-        if shift == 0:
-            return u(e) == "self.dim"
+    pm_f = parent_map(fwd.node)
+
+    class _NoVal(Exception):
+        pass
+
+    def dim_value(e, d, depth=0):
+        """The integer the expression denotes when self.dim == d (conditional expressions and if/else definitions followed)."""
+        if depth > 12 or e is None:
+            raise _NoVal()
+        if isinstance(e, ast.Constant) and isinstance(e.value, int):
+            return e.value
+        if isinstance(e, ast.Attribute) and u(e) == "self.dim":
+            return d
+        if isinstance(e, ast.UnaryOp) and isinstance(e.op, ast.USub):
+            return -dim_value(e.operand, d, depth + 1)
+        if isinstance(e, ast.UnaryOp) and isinstance(e.op, ast.Not):
+            return not dim_value(e.operand, d, depth + 1)
+        if isinstance(e, ast.BinOp) and isinstance(e.op, (ast.Add, ast.Sub)):
+            x, y = dim_value(e.left, d, depth + 1), dim_value(e.right, d, depth + 1)
+            return x + y if isinstance(e.op, ast.Add) else x - y
+        if isinstance(e, ast.Compare) and len(e.ops) == 1:
+            x, y = dim_value(e.left, d, depth + 1), dim_value(e.comparators[0], d, depth + 1)
+            f_ = {ast.Lt: x < y, ast.LtE: x <= y, ast.Gt: x > y, ast.GtE: x >= y, ast.Eq: x == y, ast.NotEq: x != y}.get(type(e.ops[0]))
+            if f_ is None:
+                raise _NoVal()
+            return f_
         if isinstance(e, ast.IfExp):
-            t, a_, b_ = u(e.test).replace(" ", ""), u(e.body).replace(" ", ""), u(e.orelse).replace(" ", "")
-            if t in ("self.dim>=0", "self.dim>-1", "0<=self.dim") and a_ == "self.dim" and b_ in ("self.dim+1", "1+self.dim"):
-                return True
-            if t in ("self.dim<0", "0>self.dim") and b_ == "self.dim" and a_ in ("self.dim+1", "1+self.dim"):
-                return True
-        return False
+            return dim_value(e.body if dim_value(e.test, d, depth + 1) else e.orelse, d, depth + 1)
+        if isinstance(e, ast.Name):
+            live = []
+            for df in rd.defs_of(e):
+                if df.kind != "assign" or df.value is None or getattr(df, "stmt", None) is None:
+                    raise _NoVal()
+                holds = True
+                for t, pol in guards_of(pm_f, df.stmt):
+                    try:
+                        if bool(dim_value(t, d, depth + 1)) != pol:
+                            holds = False
+                    except _NoVal:
+                        pass  # a guard that does not concern the dimension (mask given or not)
+                if holds:
+                    live.append(df)
+            vals = {dim_value(df.value, d, depth + 1) for df in live}
+            if len(vals) == 1:
+                return vals.pop()
+        raise _NoVal()
+
+    def adjusted_for_negative(e, shift):
+        """Does expression e denote, for every admissible self.dim, the same axis on a tensor whose rank is R + shift as self.dim
+        does on a tensor of rank R? shift 0: e == self.dim; shift -1: e == self.dim for self.dim >= 0 and self.dim + 1 otherwise."""
+        try:
+            return all(dim_value(e, d) == (d if (d >= 0 or shift == 0) else d - shift) for d in range(-4, 5))
+        except _NoVal:
+            return False
 
     bad_sites = {k: u(e) if e is not None else None for k, (sh, e) in sites.items() if not adjusted_for_negative(e, sh)}
     col.ob("G19", "S2", f"{rel}::GlobalSoftAttention.forward::dimension-denotes-one-axis", not bad_sites,
@@ -230,10 +272,13 @@ def run(ctx: Ctx):
     okmask = False
     got_axis = None
     if isinstance(m4, ast.Name) and head_axis_in_scores is not None:
-        vals = [d.value for d in rdm.defs_of(m4) if d.kind != "param"]
-        if len(vals) == 1 and isinstance(vals[0], ast.Call) and isinstance(vals[0].func, ast.Attribute) \
-                and vals[0].func.attr == "unsqueeze" and u(vals[0].func.value) == "mask":
-            got_axis = u(vals[0].args[0])
+        # every definition that carries a mask (the parameter itself re-assigned, or a separate optional local that starts as
+        # None) is the mask unsqueezed on one and the same axis
+        vals = [d.value for d in rdm.defs_of(m4) if d.kind != "param" and not (isinstance(d.value, ast.Constant) and d.value.value is None)]
+        axes = {u(v.args[0]) if isinstance(v, ast.Call) and isinstance(v.func, ast.Attribute) and v.func.attr == "unsqueeze"
+                and u(v.func.value) == "mask" and len(v.args) == 1 else "?" for v in vals}
+        if len(axes) == 1 and "?" not in axes:
+            got_axis = axes.pop()
             okmask = got_axis == str(head_axis_in_scores)
     col.ob("G19", "S4", f"{rel}::MultiHeadedAttention.forward::mask-broadcast-over-heads", okmask,
            f"the mask is unsqueezed at axis {got_axis} before the per-head attention, but the heads are the last axis "
